@@ -265,31 +265,22 @@ func evalVal(v *matcherpb.ValueMatcher, x metaVal) bool {
 	return false
 }
 
-// templateMatch: `*` = one non-empty segment, `**` = one or more segments, literal = itself.
+// templateMatch evaluates a uri_template the way Envoy does, by translation to a regular expression
+// (independent of the segment-wise matcher of spec.go and of the Lean model): `*` = one non-empty
+// path segment, `**` = one or more segments (possibly empty ones), anything else literally.
 func templateMatch(tmpl, path string) bool {
-	return templateSegs(strings.Split(tmpl, "/"), strings.Split(path, "/"))
-}
-
-func templateSegs(ts, segs []string) bool {
-	if len(ts) == 0 {
-		return len(segs) == 0
-	}
-	if len(segs) == 0 {
-		return false
-	}
-	t, s := ts[0], segs[0]
-	if t == "**" {
-		for k := 1; k <= len(segs); k++ {
-			if templateSegs(ts[1:], segs[k:]) {
-				return true
-			}
+	var parts []string
+	for _, seg := range strings.Split(tmpl, "/") {
+		switch seg {
+		case "*":
+			parts = append(parts, `[^/]+`)
+		case "**":
+			parts = append(parts, `[^/]*(?:/[^/]*)*`)
+		default:
+			parts = append(parts, regexp.QuoteMeta(seg))
 		}
-		return false
 	}
-	if t == "*" {
-		return s != "" && templateSegs(ts[1:], segs[1:])
-	}
-	return s == t && templateSegs(ts[1:], segs[1:])
+	return fullMatch(strings.Join(parts, "/"), path)
 }
 
 func evalPerm(p *rbacpb.Permission, r *request) bool {
